@@ -16,8 +16,9 @@ def main():
     a = ap.parse_args()
     seed = a.seed if a.seed is not None else int(os.environ.get('VERIF_SEED', '20261002'))
     import static_frame
-    if not os.path.abspath(static_frame.__file__).startswith('/repo/'):
-        print('MACHINERY-FAILURE: static_frame imported from %s, not /repo' % static_frame.__file__)
+    repo = os.environ.get('VERIF_REPO', '/repo').rstrip('/') + '/'
+    if not os.path.abspath(static_frame.__file__).startswith(repo):
+        print('MACHINERY-FAILURE: static_frame imported from %s, not %s' % (static_frame.__file__, repo))
         return 2
     from . import core
     pid = a.pid.upper()
